@@ -175,6 +175,9 @@ def mapgraph(pid, tier, seed, jobs, profiles):
                    "--walks", str(job.get("walks", 20)), "--steps", str(job.get("steps", 500)), "--seed", str(seed)]
             if pair:
                 cmd = [binp, "pairs", "--table", table, "--mode", consts["Mode"], "--out", rep_path, "--progress", prog]
+            if job.get("sweep"):
+                cmd = [binp, job["sweep"], "--table", table, "--mode", consts["Mode"], "--out", rep_path, "--progress", prog,
+                       "--stride", str(job.get("stride", 1)), "--offset", str(seed % job.get("stride", 1)), "--max-leaves", str(job.get("max_leaves", 256))]
             if os.path.exists(rep_path):
                 os.remove(rep_path)
             p = subprocess.run(cmd, stdout=subprocess.PIPE, stderr=subprocess.STDOUT, text=True, timeout=3000)
@@ -196,6 +199,15 @@ def mapgraph(pid, tier, seed, jobs, profiles):
             rep = json.load(open(rep_path))
             summary["replays"].append({"tag": tag, "profile": prof, "edges": rep["edges"], "walks": rep["walks"], "walk_steps": rep["walk_steps"],
                                        "drift": rep["drift"], "poison_active": rep["poison_active"], "distinct_states": rep["distinct_states"]})
+            if "sweep" in rep:
+                sw = summary.setdefault("sweep", {"cases": 0, "runs": 0, "max_callbacks": 0, "truncated": 0, "callback_kinds": {}, "failing_sites": {}})
+                for k in ("cases", "runs", "truncated"):
+                    sw[k] += rep["sweep"][k]
+                sw["max_callbacks"] = max(sw["max_callbacks"], rep["sweep"]["max_callbacks"])
+                for k, v in rep["sweep"]["callback_kinds"].items():
+                    sw["callback_kinds"][k] = sw["callback_kinds"].get(k, 0) + v
+                for k, v in rep["sweep"]["failing_sites"].items():
+                    sw["failing_sites"][k] = sw["failing_sites"].get(k, 0) + v
             summary["replayed_edges"] += rep["edges"]
             summary["walk_steps"] += rep["walk_steps"]
             summary["drift"] += rep["drift"]
@@ -263,6 +275,14 @@ def jobs_for(pid, tier):
         "C06": core + both("cursor", ["cursor"]) + both("efdc", ["entry", "fmt", "disjoint", "clone", "unchecked"], consts={"Vers": [0]})
                + setcore + both("setclone", ["clone"], mode="set")
                + pairs("alg", ["algebra", "eq"], "set", qcaps[:2] if q else tcaps[:8]) + pairs("eqmap", ["eq"], "map", qcaps[:1] if q else tcaps[:4]),
+        "C04": [dict(j, sweep="inject") for j in
+                both("core", ["core"]) + both("cef", ["cursor", "entry", "fmt", "unchecked"], consts={"Vers": [0]})
+                + both("bulkclone", ["bulk", "clone"], bigconsts={"MaxExtra": 1, "Vers": [0]})
+                + setcore + both("setbc", ["bulk", "clone"], mode="set", consts={"MaxExtra": 1}, bigconsts={"Vers": [0]})],
+        "C17": [dict(j, sweep="adversarial", max_leaves=(256 if q else 4096)) for j in
+                both("core", ["core"], consts={"Vers": [0]}) + both("ed", ["entry", "disjoint"], consts={"Vers": [0], "Vals": [0]}, bigconsts={"MaxKs": 3})
+                + both("bulkclone", ["bulk", "clone"], consts={"Vers": [0], "Vals": [0], "MaxExtra": 1})
+                + both("setcore", ["core"], mode="set", consts={"Vers": [0]}) + both("setbc", ["bulk"], mode="set", consts={"MaxExtra": 1, "Vers": [0]})],
         "C05": core + both("entry", ["entry"]) + setcore,
         "C02": core + both("cursor", ["cursor"]) + setcore,
         "C03": core + both("entry", ["entry"]) + both("bulk", ["bulk"], bigconsts={"MaxExtra": 1}) + setcore
@@ -302,6 +322,14 @@ GATES = {  # failure attributions that make a check for <pid> report a violation
 }
 
 
+def known_sites(pid):
+    try:
+        kf = json.load(open(os.path.join(ROOT, "known_findings.json")))
+    except Exception:
+        return {}
+    return {k["site"]: k for k in kf.get("known", []) if k.get("property") == pid}
+
+
 def run_check(pid, tier, seed):
     t0 = time.time()
     jobs = jobs_for(pid, tier)
@@ -314,6 +342,18 @@ def run_check(pid, tier, seed):
         failures.extend(fl)
     gate = GATES.get(pid, {pid, "CRASH"}) | {"SPEC"}
     mine = [ex for props, ex in failures if props & gate]
+    # a recorded (not repaired) genuine defect is a finding, not an alarm to keep raising
+    known = known_sites(pid)
+    if known and mine:
+        site_of = lambda ex: ((ex.get("transition") or {}).get("inject") or {}).get("site")
+        failing = set((summary.get("sweep") or {}).get("failing_sites", {}).keys())
+        if failing and failing <= set(known) and all(site_of(ex) in known for ex in mine):
+            for sname in sorted(failing):
+                print("KNOWN-FINDING: property=%s %s: %s" % (pid, sname, known[sname].get("what", "")))
+            summary["known_findings_seen"] = sorted(failing)
+            mine = []
+        else:
+            mine = [ex for ex in mine if site_of(ex) not in known] or mine
     others = {}
     for props, ex in failures:
         if not (props & gate):
@@ -334,7 +374,7 @@ def write_evidence(pid, tier, seed, summary, nviol, wall, others):
             "emitted_transitions": summary["emitted"], "replayed_edges": summary["replayed_edges"], "walk_steps": summary["walk_steps"],
             "spec_drift_steps": summary["drift"], "tlc_runs": summary["tlc"], "replays": summary["replays"],
             "op_counts": summary["op_counts"], "other_property_failures_seen": others,
-            "nostd_probe": summary.get("nostd_probe"),
+            "nostd_probe": summary.get("nostd_probe"), "sweep": summary.get("sweep"),
             "explanation": "TLC exhaustively explored the stated constants checking the invariants in every state and "
                            "emitted every (state, operation) transition; each emitted transition was replayed against the real crate "
                            "from a canonical construction and along random walks, in debug and release builds.",
